@@ -1156,26 +1156,56 @@ def wB0 : World := { wB with cache := wA.cache }
     in which `cleanupArchetypes` calls `cache.removeTable` -/
 def wR : World := (wB.modArch 1 fun A => A.freeTable 1).modTbl 1 fun T => { T with isFree := true }
 
+/-- Two archetypes with the given active tables, three or fewer tables: the shape of all demo
+    worlds. -/
+structure Shape (w : World) (t0 t1 : List Nat) (nt : Nat) : Prop where
+  lenA : w.archetypes.length = 2
+  lenT : w.tables.length = nt
+  a0 : w.archetypes[0]? = some (w.arch 0)
+  a1 : w.archetypes[1]? = some (w.arch 1)
+  t0 : (w.arch 0).tables.tables = t0
+  t1 : (w.arch 1).tables.tables = t1
+
+theorem shape_wA : Shape wA [0] [1] 2 := by
+  refine ⟨?_, ?_, ?_, ?_, ?_, ?_⟩ <;> decide +kernel
+theorem shape_wB0 : Shape wB0 [0] [1, 2] 3 := by
+  refine ⟨?_, ?_, ?_, ?_, ?_, ?_⟩ <;> decide +kernel
+theorem shape_wB : Shape wB [0] [1, 2] 3 := by
+  refine ⟨?_, ?_, ?_, ?_, ?_, ?_⟩ <;> decide +kernel
+theorem shape_wR : Shape wR [0] [2] 3 := by
+  refine ⟨?_, ?_, ?_, ?_, ?_, ?_⟩ <;> decide +kernel
+
+theorem Shape.none_ge {w : World} {t0 t1 : List Nat} {nt : Nat} (h : Shape w t0 t1 nt)
+    {a : Nat} (ha : 2 ≤ a) : w.archetypes[a]? = none :=
+  List.getElem?_eq_none (by rw [h.lenA]; exact ha)
+
+theorem Shape.tbl_ge {w : World} {t0 t1 : List Nat} {nt : Nat} (h : Shape w t0 t1 nt)
+    {t : Nat} (ht : nt ≤ t) : w.tbl t = default := by
+  unfold tbl
+  rw [List.getD_eq_getElem?_getD, List.getElem?_eq_none (by rw [h.lenT]; exact ht)]; rfl
+
+/-- which tables are active in a world of this shape -/
+theorem Shape.active {w : World} {t0 t1 : List Nat} {nt : Nat} (h : Shape w t0 t1 nt)
+    {a : Nat} {B : Archetype} (hB : w.archetypes[a]? = some B) :
+    (a = 0 ∧ B = w.arch 0 ∧ B.tables.tables = t0) ∨ (a = 1 ∧ B = w.arch 1 ∧ B.tables.tables = t1) := by
+  by_cases h0 : a = 0
+  · subst h0; rw [h.a0] at hB; injection hB with hB; subst hB; exact Or.inl ⟨rfl, rfl, h.t0⟩
+  by_cases h1 : a = 1
+  · subst h1; rw [h.a1] at hB; injection hB with hB; subst hB; exact Or.inr ⟨rfl, rfl, h.t1⟩
+  have h2 : 2 ≤ a := by omega
+  rw [h.none_ge h2] at hB; cases hB
+
 theorem demo_tableAdded : TableAdded wA wB0 1 2 := by
-  have hlenA : wA.archetypes.length = 2 := by decide +kernel
-  have hlenB : wB0.archetypes.length = 2 := by decide +kernel
-  have htA : wA.tables.length = 2 := by decide +kernel
-  have htB : wB0.tables.length = 3 := by decide +kernel
-  have hA0 : wA.archetypes[0]? = some (wA.arch 0) := by decide +kernel
-  have hA1 : wA.archetypes[1]? = some (wA.arch 1) := by decide +kernel
-  have hB1 : wB0.archetypes[1]? = some (wB0.arch 1) := by decide +kernel
-  have hT0 : (wA.arch 0).tables.tables = [0] := by decide +kernel
-  have hT1 : (wA.arch 1).tables.tables = [1] := by decide +kernel
-  have hT1' : (wB0.arch 1).tables.tables = [1, 2] := by decide +kernel
   refine { other := ?_, here := ?_, tbl := ?_, cache := rfl, inactive := ?_, active := ?_,
            back := by decide +kernel }
   · intro a' h
     by_cases h0 : a' = 0
     · subst h0; decide +kernel
-    rw [List.getElem?_eq_none (by rw [hlenB]; omega), List.getElem?_eq_none (by rw [hlenA]; omega)]
-  · refine ⟨wA.arch 1, wB0.arch 1, hA1, hB1, by decide +kernel, ?_⟩
+    have h2 : 2 ≤ a' := by omega
+    rw [shape_wB0.none_ge h2, shape_wA.none_ge h2]
+  · refine ⟨wA.arch 1, wB0.arch 1, shape_wA.a1, shape_wB0.a1, by decide +kernel, ?_⟩
     intro t' ht
-    rw [hT1, hT1']
+    rw [shape_wA.t1, shape_wB0.t1]
     simp only [List.mem_cons, List.not_mem_nil, or_false]
     omega
   · intro t' ht
@@ -1183,37 +1213,23 @@ theorem demo_tableAdded : TableAdded wA wB0 1 2 := by
     · subst h0; decide +kernel
     by_cases h1 : t' = 1
     · subst h1; decide +kernel
-    unfold tbl
-    rw [List.getD_eq_getElem?_getD, List.getD_eq_getElem?_getD,
-      List.getElem?_eq_none (by rw [htB]; omega), List.getElem?_eq_none (by rw [htA]; omega)]
+    have h3 : 3 ≤ t' := by omega
+    rw [shape_wB0.tbl_ge h3, shape_wA.tbl_ge (Nat.le_of_succ_le h3)]
   · intro a' B hB
-    by_cases h0 : a' = 0
-    · subst h0; rw [hA0] at hB; injection hB with hB; subst hB; rw [hT0]; simp
-    by_cases h1 : a' = 1
-    · subst h1; rw [hA1] at hB; injection hB with hB; subst hB; rw [hT1]; simp
-    rw [List.getElem?_eq_none (by rw [hlenA]; omega)] at hB; cases hB
+    rcases shape_wA.active hB with ⟨_, _, ht⟩ | ⟨_, _, ht⟩ <;> rw [ht] <;> simp
   · intro A' hA'
-    rw [hB1] at hA'; injection hA' with hA'; subst hA'; rw [hT1']; simp
+    rw [shape_wB0.a1] at hA'; injection hA' with hA'; subst hA'; rw [shape_wB0.t1]; simp
 
 theorem demo_tableRemoved : TableRemoved wB wR 1 1 := by
-  have hlenB : wB.archetypes.length = 2 := by decide +kernel
-  have hlenR : wR.archetypes.length = 2 := by decide +kernel
-  have htB : wB.tables.length = 3 := by decide +kernel
-  have htR : wR.tables.length = 3 := by decide +kernel
-  have hR0 : wR.archetypes[0]? = some (wR.arch 0) := by decide +kernel
-  have hR1 : wR.archetypes[1]? = some (wR.arch 1) := by decide +kernel
-  have hB1 : wB.archetypes[1]? = some (wB.arch 1) := by decide +kernel
-  have hT0 : (wR.arch 0).tables.tables = [0] := by decide +kernel
-  have hT1 : (wR.arch 1).tables.tables = [2] := by decide +kernel
-  have hT1' : (wB.arch 1).tables.tables = [1, 2] := by decide +kernel
   refine { other := ?_, here := ?_, tbl := ?_, cache := by decide +kernel, inactive := ?_ }
   · intro a' h
     by_cases h0 : a' = 0
     · subst h0; decide +kernel
-    rw [List.getElem?_eq_none (by rw [hlenR]; omega), List.getElem?_eq_none (by rw [hlenB]; omega)]
-  · refine ⟨wB.arch 1, wR.arch 1, hB1, hR1, by decide +kernel, ?_⟩
+    have h2 : 2 ≤ a' := by omega
+    rw [shape_wR.none_ge h2, shape_wB.none_ge h2]
+  · refine ⟨wB.arch 1, wR.arch 1, shape_wB.a1, shape_wR.a1, by decide +kernel, ?_⟩
     intro t' ht
-    rw [hT1, hT1']
+    rw [shape_wB.t1, shape_wR.t1]
     simp only [List.mem_cons, List.not_mem_nil, or_false]
     omega
   · intro t' ht
@@ -1221,15 +1237,10 @@ theorem demo_tableRemoved : TableRemoved wB wR 1 1 := by
     · subst h0; decide +kernel
     by_cases h2 : t' = 2
     · subst h2; decide +kernel
-    unfold tbl
-    rw [List.getD_eq_getElem?_getD, List.getD_eq_getElem?_getD,
-      List.getElem?_eq_none (by rw [htR]; omega), List.getElem?_eq_none (by rw [htB]; omega)]
+    have h3 : 3 ≤ t' := by omega
+    rw [shape_wR.tbl_ge h3, shape_wB.tbl_ge h3]
   · intro a' B hB
-    by_cases h0 : a' = 0
-    · subst h0; rw [hR0] at hB; injection hB with hB; subst hB; rw [hT0]; simp
-    by_cases h1 : a' = 1
-    · subst h1; rw [hR1] at hB; injection hB with hB; subst hB; rw [hT1]; simp
-    rw [List.getElem?_eq_none (by rw [hlenR]; omega)] at hB; cases hB
+    rcases shape_wR.active hB with ⟨_, _, ht⟩ | ⟨_, _, ht⟩ <;> rw [ht] <;> simp
 
 end CacheDemo
 end World
